@@ -75,6 +75,15 @@ impl<'a> InputGen<'a> {
                 }
                 list(&mut self.ids, name, inner)
             }
+            Ty::PathList => {
+                let n = rng.below(4);
+                let mut inner = vec![];
+                for _ in 0..n {
+                    let p = *rng.pick(&["alpha", "a::b", "::c", "Debug", "serde::Serialize", "r#type"]);
+                    inner.push(word(&mut self.ids, p));
+                }
+                list(&mut self.ids, name, inner)
+            }
             Ty::Recv(id) | Ty::BoxRecv(id) => {
                 let r = &self.recvs[*id];
                 match &r.shape {
